@@ -1,6 +1,6 @@
 //! C14 — blocking framed I/O under fragmentation and faults.
 
-use crate::vals::{Keyed, Kind, Rec, Val};
+use crate::vals::{Keyed, Kind, Rec, Seq, Val};
 use g_codec::total::{mem_mark, mem_peak_since, set_case, clear_case};
 use g_codec::util::short_hex;
 use minicbor_io::{Error, Reader, Writer};
@@ -228,7 +228,7 @@ fn limits(g: &mut Gen, st: &mut Stats) -> CaseResult {
     let v = Val::any(g);
     let e = v.encoded();
     let len = e.len();
-    let m = match g.below(6) { 0 => len.saturating_sub(1), 1 => len, 2 => len + 1, 3 => 0, 4 => 512 * 1024, _ => g.below(len + 2) } as u32;
+    let m = match g.below(8) { 0 => len.saturating_sub(1), 1 => len, 2 => len + 1, 3 => 0, 4 => 512 * 1024, 5 => (u32::MAX - g.below(6) as u32) as usize, 6 => *g.pick(&[u32::MAX as usize, u32::MAX as usize - 3, u32::MAX as usize - 4, 1usize << 31]), _ => g.below(len + 2) } as u32;
     // writer
     {
         let mut w = Writer::new(Vec::new());
@@ -483,6 +483,51 @@ fn io_histories(g: &mut Gen, st: &mut Stats) -> CaseResult {
     Ok(())
 }
 
+/// What the decoder is handed must be exactly the frame: frames of very different sizes on one reader, where a later,
+/// shorter frame holds (a) a CBOR sequence that is decoded to the end of its input, or (b) a payload that is a strict
+/// prefix of an item - which must be a decode error (end of input), never a value pieced together from older bytes.
+fn frame_extent(g: &mut Gen, st: &mut Stats) -> CaseResult {
+    st.eval();
+    let n = 2 + g.below(5);
+    let mut stream: Vec<u8> = Vec::new();
+    #[derive(Debug)]
+    enum F { S(Seq), Cut(Vec<u8>) }
+    let mut frames = Vec::new();
+    for i in 0 .. n {
+        let len = if i % 2 == 0 { 4 + g.below(40) } else { g.below(4) };
+        let xs: Vec<u32> = (0 .. len).map(|_| g.u32()).collect();
+        let enc = minicbor::to_vec(Seq(xs.clone())).expect("to_vec");
+        if g.chance(90) && enc.len() >= 2 {
+            // a strict prefix of a well-formed array of the same integers: ends inside an item
+            let whole = minicbor::to_vec(&xs).expect("to_vec");
+            let cut = 1 + g.below(whole.len() - 1);
+            let payload = whole[.. cut].to_vec();
+            stream.extend_from_slice(&(payload.len() as u32).to_be_bytes()); stream.extend_from_slice(&payload);
+            frames.push(F::Cut(payload));
+        } else {
+            stream.extend_from_slice(&(enc.len() as u32).to_be_bytes()); stream.extend_from_slice(&enc);
+            frames.push(F::S(Seq(xs)));
+        }
+    }
+    let script = gen_script(g, stream.len(), true);
+    let junk = g.bytes(60);
+    let mut r = if g.bool() { Reader::with_buffer(ScriptRead::new(&stream, &script), junk) } else { Reader::new(ScriptRead::new(&stream, &script)) };
+    for (i, f) in frames.iter().enumerate() {
+        match f {
+            F::S(want) => match r.read::<Seq>() { Ok(Some(got)) => ensure!(&got == want, "wrong-value", "frame {}: the sequence {:?} was read back as {:?} (bytes that are not part of the frame reached the decoder?)", i, want.0, got.0), other => fail!("read-error", "frame {}: {:?}", i, other.map(|x| x.map(|s| s.0)).map_err(|e| e.to_string())) },
+            F::Cut(p) => match r.read::<Vec<u32>>() {
+                Err(Error::Decode(e)) => ensure!(e.is_end_of_input(), "wrong-error", "frame {} holds the incomplete item {} ; the decode error is `{}`, not end of input", i, short_hex(p), e),
+                Ok(x) => fail!("value-from-incomplete-payload", "frame {} holds the incomplete item {} but a value came back: {:?}", i, short_hex(p), x),
+                Err(e) => fail!("wrong-error", "frame {} with the incomplete item {} gave {}", i, short_hex(p), e)
+            }
+        }
+    }
+    ensure!(matches!(r.read::<Seq>(), Ok(None)), "end-error", "no clean end after the last frame");
+    st.class("frame-extent");
+    st.nontrivial(hash_of(&stream));
+    Ok(())
+}
+
 pub fn subs() -> Vec<Sub> {
     let n14 = space_size(14);
     let n20 = space_size(20);
@@ -501,6 +546,8 @@ pub fn subs() -> Vec<Sub> {
               kind: SubKind::Random { quick: 200_000, thorough: 1_000_000, tape: 1024, f: limits } },
         Sub { prop: "C14", name: "writer-histories", rule: "2-9 calls on one Writer: good values interleaved with refused ones (over max_len, failing Encode, sink failing before the frame) and max_len changes; sink == frames of the successful writes after every step, returned lengths exact, nothing of a refused value leaks into a later frame; non-trivial = a successful write after a refusal",
               kind: SubKind::Random { quick: 150_000, thorough: 3_000_000, tape: 1024, f: writer_histories } },
+        Sub { prop: "C14", name: "frame-extent", rule: "2-6 frames of alternating long and short payloads on one Reader (new / with_buffer with junk): CBOR sequences decoded to the end of the frame come back exactly; a payload that is a strict prefix of an item is a decode error of class end-of-input, never a value",
+              kind: SubKind::Random { quick: 100_000, thorough: 1_000_000, tape: 1024, f: frame_extent } },
         Sub { prop: "C14", name: "io-histories", rule: "1-8 frames (2 % of the cases: 100-300) through ONE Writer::with_buffer and ONE Reader::with_buffer (scratch buffers arrive non-empty): plain values, context-dependent values via write_with/read_with (context advanced exactly once per value), borrowed reads (&str, &ByteSlice), frames of 0..3000 bytes in any order, reads with the wrong type, into_parts; sink == frames after every write, reader returns exactly the written values then a stable clean end, all bytes consumed",
               kind: SubKind::Random { quick: 150_000, thorough: 2_000_000, tape: 2048, f: io_histories } },
         Sub { prop: "C14", name: "writer", rule: "0-5 values through a short-writing sink: bytes == concatenation of 4-byte big-endian length + encoding, write returns the payload length, a value whose Encode fails emits nothing",
